@@ -73,6 +73,7 @@ def run(rep, tier):
             skiparms(rep, c, sfx)
         else:
             skip_basic_only(rep, c, sfx)
+        skipbasic(rep, c, sfx)
 
 
 # ------------------------------------------------------------------ SNAP
@@ -617,6 +618,53 @@ def skiparms(rep, c, sfx):
             r.violation("%s:starts_with" % key, where(arm["body"]),
                         "candidate check tests %s, needs every needle %s" % (
                             sorted(names.get(x, "?") for x in sw), [names[b] for b in binds]))
+
+
+def skipbasic(rep, c, sfx):
+    r = rep.rule("C03.SKIPBASIC" + sfx, 1,
+                 "the memchr-free search of skip_until scans every offset from the cursor to the end: its scanning loop "
+                 "has no `break`, leaves only by `return true` on a match, and ranges from self.pos to input.len()")
+    su = c.fn(POSITION + "::skip_until")
+    if su is None:
+        r.lost("Position::skip_until")
+        return
+    # the basic search: the Position method reachable from skip_until that contains no memchr call and a for loop
+    cands = []
+    for (cal, n) in hirq.call_sites(su["body"]):
+        f = c.fn(cal)
+        if f is not None and f.get("impl_self") == POSITION and not any(
+                isinstance(callee(x), str) and callee(x).startswith("memchr::") for x in walk(f["body"])) \
+                and any(kind(x) == "Loop" for x in walk(f["body"])):
+            cands.append(f)
+    if not cands:
+        loops_here = [x for x in walk(su["body"]) if kind(x) == "Loop"]
+        if loops_here and not any(isinstance(callee(x), str) and callee(x).startswith("memchr::") for x in walk(su["body"])):
+            cands = [su]
+    if not cands:
+        r.lost("memchr-free search loop reachable from skip_until")
+        return
+    fn = cands[0]
+    outer = [x for x in walk(fn["body"]) if kind(x) == "Loop" and x.get("src") == "ForLoop"]
+    if not outer:
+        r.lost("scanning for-loop in " + fn["path"])
+        return
+    lp = outer[0]
+    r.instance(fn["path"].split("::")[-1], where(lp))
+    for x in walk(lp["body"]):
+        if kind(x) == "Break" and x.get("target") == lp.get("id") and not hirq.is_desugar(x):
+            r.violation("break", where(x), "the scanning loop of %s stops at this `break` before the end of the input: "
+                        "needles that start later are never found (e.g. after a non-ASCII character when the offset "
+                        "is inside it)" % fn["name"])
+    # range start..end
+    rng = [x for x in walk(fn["body"]) if kind(x) == "Struct" and x.get("path", "").endswith("ops::range::Range")]
+    ok = False
+    for x in rng:
+        f_ = {y["name"]: y["e"] for y in x["fields"]}
+        s, e = peel(f_.get("start", {})), peel(f_.get("end", {}))
+        if kind(s) == "Field" and s["name"] == "pos" and kind(e) == "MethodCall" and e["m"] == "len":
+            ok = True
+    if not ok:
+        r.violation("range", where(lp), "the scan does not range over self.pos..self.input.len()")
 
 
 def skip_basic_only(rep, c, sfx):
